@@ -92,13 +92,22 @@ def stream_serialize_vlq(f: BinaryIO, i: int) -> None:
 def stream_deserialize_vlq(f: BinaryIO) -> int:
     """ """
     result = 0
+    octets = 0
 
     while True:
         (b,) = struct.unpack(b"B", safe_read(f, 1))
+        octets += 1
 
         result += (b % 128)
 
         if b < 128:
-            return result
+            break
 
         result *= 128
+
+    # Accept only the form that stream_serialize_vlq produces: any other octet string for the same number (e.g. extra
+    # leading 0x80 octets) would give the same object a second serialization, and hence a second hash.
+    if octets != (result.bit_length() // 7) + 1:
+        raise DeserializationError("Non-canonical VLQ")
+
+    return result
